@@ -22,6 +22,7 @@ OBLIGATIONS = [
     "NanoVerif.C13.gradient_not_double_transformed",
     "NanoVerif.C02.use_placement",
     "NanoVerif.C02.regroup_perm",
+    "NanoVerif.C14.copyRuns_eq_runs",
 ]
 DESIGN_REF = "DESIGN.md §5 C12"
 LEVEL_TEXT = ("Partial proof by composition + end-to-end exploration. The Lean obligations are the theorems the pipeline composes: the advance is preserved "
@@ -144,6 +145,12 @@ def compare(ctx, res, r):
                 if not F["CBDT"].strikeData[si].get(n) or not getattr(F["CBDT"].strikeData[si][n], "imageData", b""):
                     res.add_cex(f"colour glyph {n} has no image data in its strike", {"glyph": n}, site("bitmap-data"))
         res.stat("bitmaps:strikes", len(F["CBLC"].strikes))
+        # tie for Model/Bitmap.lean `copyRuns` (= `runs`, C14.copyRuns_eq_runs): the strikes _copy_cbdt wrote are the model's runs
+        all_gids = sorted(F.getGlyphID(n) for strike in F["CBLC"].strikes for st in strike.indexSubTables for n in st.names)
+        real_runs = [[str(F.getGlyphID(n)) for st in strike.indexSubTables for n in st.names] for strike in F["CBLC"].strikes]
+        mm = ctx.driver.run([{"op": "runs", "gids": [str(g_) for g_ in all_gids]}])[0]
+        if mm.get("copy") != real_runs:
+            res.add_tie_break("glue_together._copy_cbdt strikes vs Model copyRuns", {"gids": all_gids}, mm, real_runs)
         bad = sorted(g for g in colour if seen.get(g, 0) != 1) + sorted(g for g in seen if seen[g] != 1 and g not in colour)
         if bad:
             res.add_cex("with --bitmaps a colour glyph has no bitmap or more than one: " + ",".join(bad[:6]),
